@@ -18,7 +18,8 @@ Formulas == <<
   IdT("k"),                                                         \* k   (an auxiliary key)
   AsgT("x", N1),                                                    \* x = 1   (error, no effect)
   AsgT("$b", <<"Bin", "+", IdT("$a"), IdT("x")>>),                  \* $b = $a + x
-  <<"Bin", "??", IdT("x"), <<"Paren", AsgT("$b", N1)>>>>            \* x ?? ($b = 1) : the unselected operand is evaluated, its local stays
+  <<"Bin", "??", IdT("x"), <<"Paren", AsgT("$b", N1)>>>>,           \* x ?? ($b = 1) : the unselected operand is evaluated, its local stays
+  AsgT("$a", AsgT("$b", N1))                                        \* $a = $b = 1 : two locals from one formula, also on a runner without a map
 >>
 
 HeapDesc == [ m1 |-> [x |-> <<"int64", FALSE, <<9,0,0,7,1,9,9,2,5,4,7,4,0,9,9,3>>>>,     \* 2^53 + 1: a local must keep it exactly
